@@ -343,7 +343,7 @@ func runSCIONServer(ctx context.Context, log *slog.Logger, mtrcs *scionServerMet
 
 			if fetcher != nil && len(decoded) >= 3 &&
 				decoded[len(decoded)-2] == slayers.LayerTypeEndToEndExtn {
-				authOpt, err = e2eLayer.FindOption(slayers.OptTypeAuthenticator)
+				authOpt, err = scion.FindPacketAuthOpt(&e2eLayer, scion.PacketAuthSPIClient, scion.PacketAuthAlgorithm)
 				if err == nil && len(authOpt.OptData) != scion.PacketAuthOptDataLen {
 					log.LogAttrs(ctx, slog.LevelInfo, "failed to authenticate packet",
 						slog.String("cause", "unexpected authenticator option length"))
